@@ -147,6 +147,9 @@ def _openNormalKlattgrid(data: str) -> Klattgrid:
             "frication_formants",
         ]:
             kct = _proccessContainerTierInput(sectionData, name)
+            if kct.minTimestamp is None:
+                # No sub-tiers to take the time span from
+                kct.minTimestamp, kct.maxTimestamp = minT, maxT
             kg.addTier(kct)
 
         else:
@@ -222,7 +225,10 @@ def _proccessContainerTierInput(sectionData: str, name: str):
             entries = _buildEntries(subTuple)
             tier = KlattSubPointTier(subName, entries, subMin, subMax)
             tierList.append(tier)
-        kit = KlattIntermediateTier(subName.split()[0])
+        # The name comes from the line that heads the group ("formants: size = 0")
+        # so that a group without sub-tiers is kept
+        kitName = sectionData[max(indexList[0], 0) :].split(":", 1)[0].strip()
+        kit = KlattIntermediateTier(kitName)
         for tier in tierList:
             kit.addTier(tier)
         kct.addTier(kit)
